@@ -3,6 +3,8 @@ import EpModel.Lemmas.BuilderChecksum
 import EpModel.Spec.Decode
 import EpModel.Lemmas.BuilderParse
 import EpModel.Props.C03
+import EpModel.Props.C04
+import EpModel.Props.C05
 /-
   C10 — PacketBuilder emits consistent, parseable packets of the announced size.
 
@@ -405,6 +407,47 @@ theorem strict_slicing_accepts_ip (c : Cfg) (p out : Bytes) (wf : c.WF)
   simp only [hnc, if_false] at r
   rw [hd] at r
   exact refines_ok r
+
+/-! #### the other decoder families on builder output (corollaries through C05 and C04) -/
+
+/-- `LaxSlicedPacket::from_ethernet` (model) returns for every packet built behind `ethernet2` exactly the
+    configured layers, with no stop error and nothing marked incomplete. -/
+theorem lax_slicing_accepts_ethernet (c : Cfg) (p out : Bytes) (h : Eth2) (wf : c.WF)
+    (hl : c.link = some (.eth2 h)) (hb : build c p = .ok out) (ok : ParseOk c p.length) :
+    Dec.laxSlicedFromEthernet (Dec.memOf out) out.length = .ok (expPacket c p.length) ∧
+      (expPacket c p.length).stop = none ∧ EpModel.Lemmas.Dec.NoInc (expPacket c p.length) :=
+  EpModel.Props.C05.strict_ok_lax_same_ethernet _ _ _ (strict_slicing_accepts_ethernet c p out h wf hl hb ok)
+
+/-- `LaxSlicedPacket::from_ip` (model) on every packet built without link layer. -/
+theorem lax_slicing_accepts_ip (c : Cfg) (p out : Bytes) (wf : c.WF)
+    (hl : c.link = none) (hb : build c p = .ok out) (ok : ParseOk c p.length) :
+    Dec.laxSlicedFromIp (Dec.memOf out) out.length = .ok (expPacket c p.length) ∧
+      (expPacket c p.length).stop = none ∧ EpModel.Lemmas.Dec.NoInc (expPacket c p.length) :=
+  EpModel.Props.C05.strict_ok_lax_same_ip _ _ _ (strict_slicing_accepts_ip c p out wf hl hb ok)
+
+/-- `PacketHeaders::from_ethernet_slice` (model) never rejects a packet built behind `ethernet2`, and
+    returns the configured layers as header structs (`NetAgree`, `PayAgree`: the same network layer and
+    payload range as the slices of `expPacket`) - or stops in front of an IPv6 extension header that the
+    struct cannot hold a second time (`Early`: the documented limitation of `Ipv6Extensions`, reachable
+    from the builder only when the configured final next-header number itself is 43/44/51/60). -/
+theorem headers_accept_ethernet (c : Cfg) (p out : Bytes) (h : Eth2) (wf : c.WF)
+    (hl : c.link = some (.eth2 h)) (hb : build c p = .ok out) (ok : ParseOk c p.length) :
+    ∃ x, Dec.phFromEthernet (Dec.memOf out) out.length = .ok x ∧
+      ((x.p.link = some (.eth2 ⟨0, 14⟩) ∧ x.p.exts = (expPacket c p.length).exts.map EpModel.Lemmas.StructSlice.hdrExt ∧
+          EpModel.Lemmas.StructSlice.NetAgree x.p.net (expPacket c p.length).net ∧ x.p.tp = (expPacket c p.length).tp ∧
+          EpModel.Lemmas.StructSlice.PayAgree (Dec.memOf out) x.pay (expPacket c p.length)) ∨
+        EpModel.Lemmas.StructSlice.Early x) := by
+  have hs := strict_slicing_accepts_ethernet c p out h wf hl hb ok
+  have hv := EpModel.Props.C04.headers_from_ethernet_agree_with_slicing out
+  rw [hs] at hv
+  cases hp : Dec.phFromEthernet (Dec.memOf out) out.length with
+  | error e => rw [hp] at hv; exact absurd hv (by simp)
+  | ok x =>
+    rw [hp] at hv
+    refine ⟨x, rfl, ?_⟩
+    rcases hv with ⟨h1, _, h3, h4, h5, h6⟩ | he
+    · exact Or.inl ⟨h1, h3, h4, h5, h6⟩
+    · exact Or.inr he
 
 /-! #### special cases with the returned packet spelled out -/
 
